@@ -221,6 +221,14 @@ func (s *LocalSupervisor) Terminate(ctx context.Context, req *model.TerminateReq
 		return err
 	}
 
+	select {
+	case <-process.termination:
+		// already terminated and reaped: its pid may belong to somebody else by now
+		log.Debugf("Process %s already terminated.", req.Name)
+		return nil
+	default:
+	}
+
 	pgid, err := syscall.Getpgid(pid)
 
 	if err == nil {
